@@ -4,6 +4,7 @@ CONSTANTS
   RSizes = {11, 40}
   TsigLens = {74}
   Limits = {12, 57, 120, 200}
+  Bufs = {100, 140}
   Variant = "impl"
 SPECIFICATION Spec
 INVARIANTS Ordered ReservedKept FinishedFits ReservedUsedExactly
